@@ -9,7 +9,7 @@
 From Coq Require Import Reals ZArith List.
 From PV Require Import Num NumR Model_voigt Model_decomp Proofs_tensors_alg Proofs_tensors_rot
   Proofs_tensors_maps Proofs_tensors_proj Inst_tensors Proofs_decomp Proofs_decomp2 Proofs_decomp3
-  Model_decomp_series Proofs_decomp_series
+  Proofs_decomp4 Proofs_decomp5 Model_decomp_series Proofs_decomp_series
   Inst_decomp_base Inst_decomp_seg0 Inst_decomp_seg1 Inst_decomp_seg2 Inst_decomp Proofs_decomp_gen.
 From PV.gen Require Import Gen_tensors Gen_decomp.
 Import ListNotations.
@@ -270,6 +270,68 @@ Example C12_corotation_nonvacuous :
 Proof. exact C12_run_nonvacuous_proof. Qed.
 
 (* ---------------------------------------------------------------------- *)
+(* GENERAL tensors (no symmetry assumed): the frame clause at full strength *)
+(* ---------------------------------------------------------------------- *)
+(* M0 and M are the same tensor in two frames related by Rq (R^T R = I); both contractions have simple spectra
+   (distinct3 mud, distinct3 muv: the property's own restriction); the eigh oracle returns, in both frames,
+   orthonormal columns with column j an eigenvector for the j-th eigenvalue (eigh lists the eigenvalues in
+   ascending order and they are the same in both frames).  Then, whenever the run in the original frame reports
+   numbers at all, the run in the new frame reports the SAME bulk modulus, shear modulus, percent anisotropy and
+   five class percentages, and its hexagonal axis is +- Rq . (the axis of the original run).  No tie exclusion is
+   needed: both runs compare the same real numbers in the same order (Proofs_decomp4.v / Proofs_decomp5.v: the
+   eigenvectors co-rotate up to sign, the pairing is equivariant, the candidate frames differ by reversals of axes,
+   which the four projectors commute with). *)
+Theorem C12_general_outputs_frame_independent :
+  forall (M0 Ed0 Ev0 M Ed Ev Rq : arr NumR) (mud muv : nat -> R),
+  let vm0 := k_upper_tri_to_symmetric_6 M0 in
+  let vm := k_upper_tri_to_symmetric_6 M in
+  sym6 vm0 -> sym6 vm -> orth (mat3 Rq) ->
+  eq4b (t4 (k_voigt_to_elastic_tensor vm)) (rot4 (t4 (k_voigt_to_elastic_tensor vm0)) (mat3 Rq)) ->
+  distinct3 mud -> distinct3 muv ->
+  orth (mat3 Ed0) -> eigcols (mat3 (fst (k_voigt_decompose vm0))) (mat3 Ed0) mud ->
+  orth (mat3 Ev0) -> eigcols (mat3 (snd (k_voigt_decompose vm0))) (mat3 Ev0) muv ->
+  orth (mat3 Ed) -> eigcols (mat3 (fst (k_voigt_decompose vm))) (mat3 Ed) mud ->
+  orth (mat3 Ev) -> eigcols (mat3 (snd (k_voigt_decompose vm))) (mat3 Ev) muv ->
+  forall out0 : list R,
+  @elasticity_components1 NumR M0 Ed0 Ev0 = Ok out0 ->
+  exists out, @elasticity_components1 NumR M Ed Ev = Ok out /\
+    (forall n, (n < 8)%nat -> nth n out 0 = nth n out0 0) /\
+    exists sgn, pm1 sgn /\
+      forall a, (a < 3)%nat -> nth (8 + a) out 0 = sgn * sum3 (fun b => mat3 Rq a b * nth (8 + b) out0 0).
+Proof. exact ec1_general_frame_independent. Qed.
+
+(* the two ingredients as statements of their own *)
+(* (A) + (B): under the same oracle hypotheses column i of the SCCS built in the new frame is +- Rq . (column i of
+   the SCCS built in the original frame) -- the nearest-eigenvector pairing (degrees, bound 10, sign(dot) * j,
+   averaging, normalisation) is equivariant *)
+Theorem C12_pairing_equivariant :
+  forall (Q : M3) (Ed0 Ev0 Ed Ev : arr NumR) (s t : nat -> R),
+  orth Q -> orth (mat3 Ed0) -> orth (mat3 Ev0) -> corot Q Ed0 Ed s -> corot Q Ev0 Ev t ->
+  forall i, (i < 3)%nat -> forall r, (r < 3)%nat ->
+    @sccs_col NumR Ed Ev i r = s i * rotv Q (@sccs_col NumR Ed0 Ev0 i) r.
+Proof. exact sccs_col_corot. Qed.
+
+(* (D): reversing axes (e_i = +-1) multiplies the 21 components by signs, and the six norms frame_parts computes
+   (distance to the hexagonal projection and the five class parts) do not change *)
+Theorem C12_parts_invariant_under_axis_reversal :
+  forall (e : nat -> R) (x x0 : arr NumR) (K G : R), pm3 e -> veq x (flip21 e x0) ->
+  cand x (@iso_vector NumR K G) = cand x0 (@iso_vector NumR K G).
+Proof. exact cand_flip. Qed.
+
+Example C12_general_nonvacuous :
+  let M0 := M_ortho_example2 in
+  let vm0 := k_upper_tri_to_symmetric_6 M0 in
+  let I3 := @eye3 NumR in
+  exists mud muv out0,
+    sym6 vm0 /\ orth (mat3 I3) /\
+    eq4b (t4 (k_voigt_to_elastic_tensor vm0)) (rot4 (t4 (k_voigt_to_elastic_tensor vm0)) (mat3 I3)) /\
+    distinct3 mud /\ distinct3 muv /\
+    eigcols (mat3 (fst (k_voigt_decompose vm0))) (mat3 I3) mud /\
+    eigcols (mat3 (snd (k_voigt_decompose vm0))) (mat3 I3) muv /\
+    @elasticity_components1 NumR M0 I3 I3 = Ok out0.
+Proof. exact general_nonvacuous_proof. Qed.
+
+(* ---------------------------------------------------------------------- *)
 (* The public function takes a SERIES of matrices.  Model_decomp_series is  *)
 (* the loop as written (table of rows allocated up front, iteration m       *)
 (* writes row m, an exception aborts the call); the statements below hold   *)
@@ -507,6 +569,31 @@ Theorem C12_generated_ortho_sum_rule :
   r 3%nat * r 3%nat + r 4%nat * r 4%nat + r 5%nat * r 5%nat + r 6%nat * r 6%nat + r 7%nat * r 7%nat
   = r 2%nat * r 2%nat.
 Proof. exact gen_ortho_sum_rule_proof. Qed.
+
+(* C12 for GENERAL tensors on the generated row (see C12_general_outputs_frame_independent): simple spectra, the
+   oracle lists the eigenvectors in the same order in both frames; if the row of the tensor in its original frame is
+   initialised then so is the row in the new frame, with the same eight numbers and the co-rotated axis *)
+Theorem C12_generated_general_frame_independent :
+  forall (eigh : arr NumR -> arr NumR * arr NumR) (M0 M Rq : arr NumR) (mud muv : nat -> R) (f0 r0 : arr NumR),
+  let vm0 := @k_upper_tri_to_symmetric_6 NumR M0 in
+  let vm := @k_upper_tri_to_symmetric_6 NumR M in
+  let Ed0 := snd (eigh (fst (@k_voigt_decompose NumR vm0))) in
+  let Ev0 := snd (eigh (snd (@k_voigt_decompose NumR vm0))) in
+  let Ed := snd (eigh (fst (@k_voigt_decompose NumR vm))) in
+  let Ev := snd (eigh (snd (@k_voigt_decompose NumR vm))) in
+  sym6 vm0 -> sym6 vm -> orth (mat3 Rq) ->
+  eq4b (t4 (@k_voigt_to_elastic_tensor NumR vm)) (rot4 (t4 (@k_voigt_to_elastic_tensor NumR vm0)) (mat3 Rq)) ->
+  distinct3 mud -> distinct3 muv ->
+  orth (mat3 Ed0) -> eigcols (mat3 (fst (@k_voigt_decompose NumR vm0))) (mat3 Ed0) mud ->
+  orth (mat3 Ev0) -> eigcols (mat3 (snd (@k_voigt_decompose NumR vm0))) (mat3 Ev0) muv ->
+  orth (mat3 Ed) -> eigcols (mat3 (fst (@k_voigt_decompose NumR vm))) (mat3 Ed) mud ->
+  orth (mat3 Ev) -> eigcols (mat3 (snd (@k_voigt_decompose NumR vm))) (mat3 Ev) muv ->
+  @k_ec_row NumR eigh M0 = Ok (f0, r0) -> f0 0%nat = 1 ->
+  exists f r, @k_ec_row NumR eigh M = Ok (f, r) /\ f 0%nat = 1 /\
+    (forall n, (n < 8)%nat -> r n = r0 n) /\
+    exists sgn, pm1 sgn /\
+      forall a, (a < 3)%nat -> r (8 + a)%nat = sgn * sum3 (fun b => mat3 Rq a b * r0 (8 + b)%nat).
+Proof. exact gen_general_frame_independent_proof. Qed.
 
 (* non-vacuity: with the oracle that answers the identity matrix, the generated row of diag(1,2,4,1,1,1) is
    initialised and the orthonormality hypotheses hold (the tensor-side hypotheses: C12_corotation_nonvacuous) *)
